@@ -40,7 +40,7 @@ fn members_oracle(prop: &'static str, kind: RKind, wire: &V, bytes: &[u8]) -> Ve
 
 /// the response spaces, shared with C03 (different oracle)
 pub fn explore_responses(ctx: &'static Ctx, prop: &'static str, oracle: Oracle) {
-    let cap: u64 = if ctx.thorough() { 6_000_000 } else { 300_000 };
+    let cap: u64 = if ctx.thorough() { 12_000_000 } else { 300_000 };
     let dev_bound = if ctx.thorough() { 3 } else { 2 };
     for kind in RKINDS {
         if kind == RKind::GetNextAssertion {
